@@ -7,6 +7,7 @@ ONLY the configured templates and answers `notATemplate` on every other string. 
 Each statement has a seeded-change / old-code witness showing it is not vacuous.
 -/
 import CaddyModel.C18.MapH
+import CaddyModel.C18.Headers
 
 namespace CaddyModel.C18
 
@@ -143,5 +144,103 @@ theorem map_validated_never_panics (reexpand : Bool) (R : Bytes → Bytes) (cfg 
 example : mapValidate ⟨str "{http.request.uri.query.q}", [str "m"],
     [⟨false, str "plain", .lit [120], [some (str "mapped")]⟩, ⟨true, [], .anch (str "x") [], [some (str "cap-${1}-end")]⟩],
     [str "{http.request.header.X-In}"]⟩ = true := by decide
+
+/-! ### headers handler -/
+
+section Headers
+variable (R R' : Hdrs → Bytes → Bytes) (ts : List Bytes) (hR : ∀ h t, t ∈ ts → R' h t = R h t)
+include hR
+
+theorem hdrClearPass_congr : ∀ (ds : List Bytes) (hs : Hdrs), (∀ d ∈ ds, d ∈ ts) →
+    hdrClearPass R' ds hs = hdrClearPass R ds hs
+  | [], _, _ => rfl
+  | d :: ds, hs, h => by
+    unfold hdrClearPass
+    rw [hR hs d (h d List.mem_cons_self)]
+    exact hdrClearPass_congr ds _ (fun d' hd' => h d' (List.mem_cons_of_mem _ hd'))
+
+theorem hdrDeletePass_congr : ∀ (ds : List Bytes) (hs : Hdrs), (∀ d ∈ ds, d ∈ ts) →
+    hdrDeletePass R' ds hs = hdrDeletePass R ds hs
+  | [], _, _ => rfl
+  | d :: ds, hs, h => by
+    unfold hdrDeletePass
+    rw [hR hs d (h d List.mem_cons_self)]
+    exact hdrDeletePass_congr ds _ (fun d' hd' => h d' (List.mem_cons_of_mem _ hd'))
+
+theorem hdrAddPass_congr (ops : HdrOps) (hs : Hdrs) (h : ∀ t ∈ hdrTemplates ops, t ∈ ts) :
+    hdrAddPass R' ops hs = hdrAddPass R ops hs := by
+  unfold hdrAddPass
+  split
+  · rename_i f v hadd
+    have hf : f ∈ ts := h f (by simp [hdrTemplates, hadd])
+    have hv : v ∈ ts := h v (by simp [hdrTemplates, hadd])
+    rw [hR hs f hf, hR hs v hv]
+  · rfl
+
+theorem hdrSetPass_congr (ops : HdrOps) (hs : Hdrs) (h : ∀ t ∈ hdrTemplates ops, t ∈ ts) :
+    hdrSetPass R' ops hs = hdrSetPass R ops hs := by
+  unfold hdrSetPass
+  split
+  · rename_i f vs hset
+    have hf : f ∈ ts := h f (by simp [hdrTemplates, hset])
+    have hvs : vs.map (R' hs) = vs.map (R hs) :=
+      List.map_congr_left (fun v hv => hR hs v (h v (by simp [hdrTemplates, hset, hv])))
+    rw [hR hs f hf, hvs]
+  · rfl
+
+theorem hdrReplacePass_congr (ops : HdrOps) (hs : Hdrs) (h : ∀ t ∈ hdrTemplates ops, t ∈ ts) :
+    hdrReplacePass false R' ops hs = hdrReplacePass false R ops hs := by
+  unfold hdrReplacePass
+  split
+  · rename_i f r hrep
+    have hf : f ∈ ts := h f (by simp [hdrTemplates, hrep])
+    have hs' : r.search ∈ ts := h _ (by simp [hdrTemplates, hrep])
+    have hr : r.replace ∈ ts := h _ (by simp [hdrTemplates, hrep])
+    rw [hR hs f hf, hR hs _ hs', hR hs _ hr]
+    rfl
+  · rfl
+
+theorem hdrApplyTo_congr (ops : HdrOps) (hs : Hdrs) (h : ∀ t ∈ hdrTemplates ops, t ∈ ts) :
+    hdrApplyTo false R' ops hs = hdrApplyTo false R ops hs := by
+  have hd : ∀ d ∈ ops.delete, d ∈ ts := fun d hd => h d (by simp [hdrTemplates, hd])
+  unfold hdrApplyTo
+  rw [hdrClearPass_congr R R' ts hR _ _ hd, hdrAddPass_congr R R' ts hR _ _ h, hdrSetPass_congr R R' ts hR _ _ h,
+    hdrDeletePass_congr R R' ts hR _ _ hd, hdrReplacePass_congr R R' ts hR _ _ h]
+
+end Headers
+
+/-- **headers: only configured operands are scanned.** `ApplyTo` computes the same header map from a
+    replacer that expands nothing but the configured field names, values, search and replace operands
+    — whatever the header map holds (request headers, upstream response headers) is read, compared,
+    searched and rewritten as bytes, never expanded; so are the results of the substring / regexp
+    replacements. Holds for the replacer as a function of the changing header map (request side). -/
+theorem headers_scan_only_configured_operands (R : Hdrs → Bytes → Bytes) (ops : HdrOps) (hs : Hdrs) :
+    hdrApplyTo false R ops hs =
+      hdrApplyTo false (fun h => onlyTemplates (hdrTemplates ops) (R h)) ops hs :=
+  (hdrApplyTo_congr R (fun h => onlyTemplates (hdrTemplates ops) (R h)) (hdrTemplates ops)
+    (fun _ _ ht => onlyTemplates_mem ht) ops hs (fun _ ht => ht)).symm
+
+/-- … and on the request side (`ApplyToRequest`, which adds and removes the `Host` entry around it) -/
+theorem headers_request_side_scans_only_configured_operands (R : Hdrs → Bytes → Bytes) (ops : HdrOps)
+    (hs : Hdrs) (host : Bytes) :
+    hdrApplyToRequest false R ops hs host =
+      hdrApplyToRequest false (fun h => onlyTemplates (hdrTemplates ops) (R h)) ops hs host := by
+  unfold hdrApplyToRequest
+  rw [← headers_scan_only_configured_operands]
+
+/-- a change that expands the RESULT of a header replacement violates the statement: the request header
+    `X-In: {env.VERIF_C18_SECRET}` with `replace X-In a → b` -/
+def exHdrOps : HdrOps := ⟨none, none, [], some (str "X-In", ⟨[97], false, .lit [], [98]⟩)⟩
+def exHdrReq : HttpReq := ⟨str "{env.VERIF_C18_SECRET}", [], [47], str "S3CR3T", []⟩
+
+theorem headers_rescanning_replaced_values_scans_request_text :
+    hdrApplyTo false (fun hs => expandKnown (hdrEnv exHdrReq hs)) exHdrOps [(str "X-In", [str "{env.VERIF_C18_SECRET}"])]
+      = [(str "X-In", [str "{env.VERIF_C18_SECRET}"])] ∧
+    hdrApplyTo true (fun hs => expandKnown (hdrEnv exHdrReq hs)) exHdrOps [(str "X-In", [str "{env.VERIF_C18_SECRET}"])]
+      = [(str "X-In", [str "S3CR3T"])] ∧
+    hdrApplyTo true (fun hs => expandKnown (hdrEnv exHdrReq hs)) exHdrOps [(str "X-In", [str "{env.VERIF_C18_SECRET}"])] ≠
+      hdrApplyTo true (fun hs => onlyTemplates (hdrTemplates exHdrOps) (expandKnown (hdrEnv exHdrReq hs))) exHdrOps
+        [(str "X-In", [str "{env.VERIF_C18_SECRET}"])] := by
+  set_option maxRecDepth 100000 in decide
 
 end CaddyModel.C18
